@@ -82,10 +82,10 @@ template<class Geod> static void props(const char* name, const Geod& g, double a
 // relations hold on a copy of the solver object whose maxit2_ is maxit1_ + 2 digits + 20 (the candidate repair).
 static void set_budget(Geodesic& h);
 static void set_budget(GeodesicExact& h);
-// the input class of F63: strongly eccentric ellipsoid, both points within 1e-3 deg of the equator, and the solver object has (at least) the
+// the input class of F63: both points within 1e-3 deg of the equator (any ellipsoid), and the solver object has (at least) the
 // budget the library ships with - a change that lowers the budget, or failures elsewhere, are not part of the finding
 template<class Geod> static bool budget_class(const Geod& g, double f, double lat1, double lat2) {
-  return std::fabs(f) >= 0.25 && std::fabs(lat1) <= 1e-3 && std::fabs(lat2) <= 1e-3 && g.maxit2_ >= g.maxit1_ + Math::digits() + 10 && g.maxit2_ < g.maxit1_ + 2 * Math::digits() + 20; }
+  (void)f; return std::fabs(lat1) <= 1e-3 && std::fabs(lat2) <= 1e-3 && g.maxit2_ >= g.maxit1_ + Math::digits() + 10 && g.maxit2_ < g.maxit1_ + 2 * Math::digits() + 20; }
 template<class Geod> static void budget_props(const char* name, const Geod& g, double acc, double ea, double f, double lat1, double lon1, double lat2, double lon2) {
   std::vector<std::pair<std::string, std::string>> first, second;
   sink = &first; props(name, g, acc, ea, f, lat1, lon1, lat2, lon2); sink = nullptr;
